@@ -121,6 +121,17 @@ def gen(tier, seed):
         for p_ in others:
             for nm in ('~', '~/x', '~/'):
                 yield {'kind': 'tilde', 'name': nm, 'euid': p_.pw_uid}
+    # many directories: the one added first still wins, the one added last is still consulted
+    for n in (16, 17, 18, 33, 64, 65, 66, 130, 300):
+        for first, last in (('d1', 'd3'), ('missing', 'd2'), ('d3', 'missing'), ('d2', 'd2')):
+            yield {'kind': 'sp', 'dirs': [first] + ['missing%d' % k for k in range(n - 2)] + [last], 'names': N}
+    # tilde forms one after the other in ONE process: an answer must not depend on the look-up before it
+    u = USERS[0]
+    uup = '/..' * pwd.getpwnam(u).pw_dir.count('/')
+    seq = ['~' + u + '/x', '~' + u[:-1] if len(u) > 1 else '~q', '~' + u[:1] + '/y', '~' + u + 'x', '~' + u, '~nouser', '~' + u + '/z', '~', '~/a', '~' + u[:-1] + '/b' if len(u) > 1 else '~q/b',
+           '~%s%s%s/tcwd.conf' % (u, uup, root), '~' + USERS[-1], '~' + USERS[-1][:-1]]
+    for rot in range(len(seq)):
+        yield {'kind': 'tildeseq', 'names': seq[rot:] + seq[:rot]}
     rng = core.seeded_rng(seed, 'c17')
     for _ in range(200 if tier == 'quick' else 5000):
         n = rng.randint(3, 6) if rng.random() < 0.9 else rng.randint(11, 14)
@@ -135,6 +146,9 @@ def script(spec):
     L = list(lines)
     if spec['kind'] == 'tilde' and spec.get('euid') is not None:
         L += ['seteuid %d' % spec['euid'], 'tilde %s' % hx(spec['name']), 'seteuid 0']
+        return '\n'.join(L)
+    if spec['kind'] == 'tildeseq':
+        L += ['tilde %s' % hx(nm) for nm in spec['names']]
         return '\n'.join(L)
     if spec['kind'] == 'tilde':
         L.append('tilde %s' % hx(spec['name']))
@@ -187,6 +201,18 @@ def judge(spec, events, death):
         v.notes['tilde_forms'] = 1
         if not p or unhx(p[0]['v']) != want:
             v.bad('tilde:wrong:effective-uid', 'with effective uid %d cfg_tilde_expand(%r) = %r, expected the home of that account: %r' % (spec['euid'], spec['name'], unhx(p[0]['v']) if p else None, want))
+        return v
+    if spec['kind'] == 'tildeseq':
+        p = [e for e in events if e.get('ev') == 'path']
+        v.nontrivial = True
+        v.notes['tilde_forms'] = len(p)
+        if len(p) != len(spec['names']):
+            v.bad('harness:short-log', 'tilde results missing')
+            return v
+        for k, (nm, e) in enumerate(zip(spec['names'], p)):
+            if unhx(e['v']) != tilde(nm):
+                v.bad('tilde:wrong:after-another-lookup', 'cfg_tilde_expand(%r) = %r after expanding %r; expected %r' % (nm, unhx(e['v']), spec['names'][:k][-2:], tilde(nm)))
+                break
         return v
     if spec['kind'] == 'tilde':
         p = [e for e in events if e.get('ev') == 'path']
